@@ -40,6 +40,11 @@ impl PrefixFileSet {
         let dir = path_prefix
             .parent()
             .ok_or_else(|| format!("path has no parent: {path_prefix:?}"))?;
+        let file_name_prefix = path_prefix
+            .file_name()
+            .ok_or_else(|| format!("path has no file name: {path_prefix:?}"))?
+            .to_string_lossy()
+            .to_string();
         let mut files = BinaryHeap::new();
         for dir_entry in dir
             .read_dir()
@@ -47,7 +52,11 @@ impl PrefixFileSet {
         {
             let dir_entry = dir_entry.map_err(|e| format!("error reading dir {dir:?}: {e:?}"))?;
             let path = dir_entry.path();
-            if path.starts_with(path_prefix) {
+            if dir_entry
+                .file_name()
+                .to_string_lossy()
+                .starts_with(&file_name_prefix)
+            {
                 let metadata = dir_entry.metadata().map_err(|e| {
                     format!("error reading metadata of {:?}: {e:?}", dir_entry.path())
                 })?;
